@@ -15,6 +15,9 @@ pub mod frame;
 pub mod util;
 pub mod wrapper;
 
+#[cfg(feature = "verif")]
+pub mod verif;
+
 mod bitfield;
 use bitfield::RowId;
 mod llfree;
